@@ -82,6 +82,9 @@ def cases(draw):
   pats = [s['pattern'] for s in schemas] + [a['pattern'] for a in aggs]
   names = draw(st.lists(rx.names_for(pats), min_size=1, max_size=10, unique=True))
   names = [n for n in names if n and ';' not in n]
+  # tagged series are matched by their full name as received (name;tag=value)
+  names = [n + draw(st.sampled_from(['', '', '', ';env=prod', ';b=1;a=2', ';rollup=sum'])) for n in names]
+  names = list(dict.fromkeys(names))
   return {'schemas': schemas, 'aggs': aggs, 'names': names or ['a.b'], 'agg_file_missing': draw(st.integers(0, 7)) == 0}
 
 
